@@ -138,31 +138,42 @@ example : [[0, 0, 0, 13, 0, 0, 0x81, 13, 0, 0, 1, 2, 3, 4, 1, 2, 3, 0, 0, 0, 10,
 example : feed Rx.init [0, 0, 0, 0, 0, 0, 0, 10, 0xFF, 0xFF, 0, 0, 0, 5, 0, 0, 0, 7] = ⟨[0, 0, 0, 10, 0xFF, 0xFF, 0, 0, 0, 5, 0, 0, 0, 7], [], 1⟩ := by
   decide +kernel
 
-/-! ## hand-over of a segment to the receiver thread (no lost wake-up) -/
+/-! ## hand-overs between the threads of the receive path (no lost wake-up), `ByteQueue` locking -/
 
 open SecsModel.Model.Rx.OnData in
-/-- **No lost wake-up, for the statement order that exists** (`Gen.RxOrder.onData`, extracted from `_on_connection_data_received`): the
-handler appends exactly once and every statement is one the model knows; the listed states are closed under every step of the connection
-thread, the receiver thread and the arrival of further segments (so they are all reachable states, for any number of segments and any
-interleaving); in none of them are there bytes nobody has looked at while the receiver thread sleeps with no wake-up pending or coming;
-and whenever unseen bytes exist and the handler has finished, the receiver thread can take a step (its pass over the buffer is at most
-two steps away).  This is what makes `feed` ("one `on_data`, then one run of the loop") a faithful reading of the threaded code. -/
-theorem on_data_no_lost_wakeup :
-    Gen.RxOrder.onData.filter (· = "append") = ["append"]
-    ∧ (∀ st ∈ Gen.RxOrder.onData, st = "append" ∨ st = "trigger")
-    ∧ St.init ∈ reach Gen.RxOrder.onData
-    ∧ (∀ s ∈ reach Gen.RxOrder.onData, ∀ l ∈ labels, ∀ s', step Gen.RxOrder.onData s l = some s' → s' ∈ reach Gen.RxOrder.onData)
-    ∧ (∀ s ∈ reach Gen.RxOrder.onData, lost s = false)
-    ∧ (∀ s ∈ reach Gen.RxOrder.onData, s.unseen = true → s.prog = [] → (step Gen.RxOrder.onData s .rx).isSome = true) := by
-  decide +kernel
+/-- **No lost wake-up, received bytes → receiver thread**, for the statement orders that exist (`Gen.RxOrder.onData` from
+`_on_connection_data_received`: append, trigger; `Gen.RxOrder.receiverLoop` from `_receiver_thread_function`: wait, clear, stoptest, target):
+every statement is one the model knows, the handler appends exactly once; the enumerated states are closed under every step of producer,
+consumer and the arrival of further items (so they are all reachable states, for any number of segments and any interleaving); in none of
+them is there an item nobody has looked at while the consumer sleeps in `wait` with the event clear and no `trigger` coming; and with an
+unseen item and the handler finished the consumer is never stuck.  This is what makes `feed` a faithful reading of the threaded code. -/
+theorem on_data_no_lost_wakeup : noLostWakeup Gen.RxOrder.onData Gen.RxOrder.receiverLoop = true := by decide +kernel
 
 open SecsModel.Model.Rx.OnData in
-/-- **witness: with the two statements swapped the wake-up is lost.**  `trigger_receiver()` first: the receiver thread wakes, clears the
-trigger, passes over the (still empty) buffer and goes back to sleep; the bytes are appended afterwards and nobody looks at them until an
-unrelated later segment arrives — the last frame of a burst is not delivered. -/
-theorem swapped_order_loses_wakeup :
-    ∃ s, run ["trigger", "append"] St.init [.segment, .conn, .rx, .rx, .conn] = some s ∧ lost s = true
-      ∧ step ["trigger", "append"] s .conn = none ∧ step ["trigger", "append"] s .rx = none := by
-  refine ⟨_, rfl, ?_⟩; decide +kernel
+/-- **No lost wake-up, decoded blocks → dispatcher thread** (`Gen.RxOrder.queueBlock` from `queue_block`: put, set;
+`Gen.RxOrder.dispatcherLoop` from `_dispatcher_thread_function`: wait, clear, stoptest, drain): the last block of a burst is dispatched
+without waiting for a later frame. -/
+theorem dispatch_no_lost_wakeup : noLostWakeup Gen.RxOrder.queueBlock Gen.RxOrder.dispatcherLoop = true := by decide +kernel
+
+open SecsModel.Model.Rx.OnData in
+/-- **witnesses: either reordering loses a wake-up.**  Producer `trigger` before `append`: the consumer wakes, clears, looks at nothing and
+sleeps; the item is appended afterwards.  Consumer `clear` after the drain: an item queued between the drain's last look and `clear()` has
+its wake-up wiped.  In both final states nothing can move until an unrelated later item arrives. -/
+theorem reordered_handover_loses_wakeup :
+    noLostWakeup ["trigger", "append"] ["wait", "clear", "stoptest", "target"] = false
+    ∧ noLostWakeup ["append", "trigger"] ["wait", "stoptest", "drain", "clear"] = false
+    ∧ (∃ s, run ["trigger", "append"] ["wait", "clear", "stoptest", "target"] St.init [.item, .prod, .cons, .cons, .cons, .cons, .prod] = some s
+        ∧ lost ["wait", "clear", "stoptest", "target"] s = true)
+    ∧ (∃ s, run ["append", "trigger"] ["wait", "stoptest", "drain", "clear"] St.init
+          [.item, .prod, .prod, .cons, .cons, .cons, .item, .prod, .prod, .cons] = some s
+        ∧ lost ["wait", "stoptest", "drain", "clear"] s = true) := by
+  refine ⟨by decide +kernel, by decide +kernel, ⟨_, rfl, by decide +kernel⟩, ⟨_, rfl, by decide +kernel⟩⟩
+
+/-- **`ByteQueue` is only changed under its lock, and `pop(size)` removes exactly `size` bytes** (generated facts): `append`, `pop`,
+`pop_byte`, `clear` touch `self._buffer` only inside `with self._buffer_lock:`, and `pop` is `data = buffer[:size]; del buffer[:size];
+return data` under that lock — the `buf.take n` / `buf.drop n` of `Model.Rx.extractF`, whatever the connection's thread appends meanwhile. -/
+theorem byte_queue_locked :
+    Gen.RxOrder.byteQueueLocked = [("append", true), ("pop", true), ("pop_byte", true), ("clear", true)]
+    ∧ Gen.RxOrder.popTakesExactlySize = true := by decide
 
 end SecsModel.Props.C04
